@@ -120,3 +120,15 @@ Theorem C14_source_fallback_encoder :
   (forall ld ls n, ctest (env2 "dst.len" ld "src.len" ls) n hex_fallback_guard = (ld <? ls * 2)).
 Proof. exact tie_hex_fallback. Qed.
 
+(* ---- T1: which trait methods are implemented (coq/gen/GenSigs.v gen_impl_methods) ---- *)
+From Coq Require Import String.
+From GA Require Import SigTie.
+From GAGen Require Import GenSigs.
+Local Open Scope string_scope.
+
+(* LowerHex and UpperHex define fmt only (regenerated) *)
+Theorem C14_source_impl_methods :
+  methods_of "fmt::LowerHex for GenericArray<u8,N>" = Some ["fmt"] /\
+  methods_of "fmt::UpperHex for GenericArray<u8,N>" = Some ["fmt"].
+Proof. repeat split. Qed.
+
